@@ -75,9 +75,12 @@ var vC16MacroProgs = []string{
 	"// #EnableDice wod true\n2a5", "// #EnableDice coc true\nb2", "// #EnableDice fate true\nf", "// #EnableDice doublecross true\n2c5",
 	"// #EnableDice wod false\n2a5", "// #EnableDice coc false\nb2", "// #EnableDice fate false\nf", "// #EnableDice doublecross false\n2c5",
 	"1;// #EnableDice wod true\n2a5", "2a5 // #EnableDice wod true\n", "// #EnableDice bogus true\n2a5",
+	// the macro input parses but fails while running
+	"// #EnableDice coc true\nb2 / 0", "// #EnableDice fate true\nf + []", "// #EnableDice wod true\n2a5 + nosuchvar.x", "// #EnableDice doublecross true\n2c5 % 0",
+	"// #EnableDice coc false\n1 / 0", "// #EnableDice wod true\n[1][5]",
 }
 
-//vh:prop=C16 tiers=quick,thorough budget_s=600 bounds="11 programs with an #EnableDice macro in leading / middle / trailing position for each family, initial flags symbolic: the macro changes only that evaluation; Config is field-for-field unchanged afterwards and a following macro-free run behaves as configured"
+//vh:prop=C16 tiers=quick,thorough budget_s=600 bounds="17 programs with an #EnableDice macro in leading / middle / trailing position for each family (6 of them fail at run time after the macro took effect), initial flags symbolic: the macro changes only that evaluation; Config is field-for-field unchanged afterwards and a following macro-free run behaves as configured"
 func VH_C16_macro() {
 	k := vChoice("prog", len(vC16MacroProgs))
 	vm := NewVM()
